@@ -42,14 +42,14 @@ MIN_HITS = {
         'm:ignore-ignored': 100, 'm:ignore-trained': 100, 'm:ignore-oracle': 100,
     },
     'thorough': {
-        'm:agnostic-simplex': 1500, 'm:agnostic-window-length': 1500, 'm:agnostic-window-last': 1500,
-        'm:agnostic-window-shift': 1500, 'agnostic:absent-domain-round': 200, 'agnostic:W=1': 40, 'agnostic:W=2': 40,
-        'agnostic:W=3': 40, 'agnostic:dlr=1.0': 40,
-        'm:apfl-coef': 1000, 'm:apfl-keyset': 800, 'apfl:coef-at-boundary': 50,
-        'm:hyp-argmin': 3000, 'm:hyp-argmin-eval': 3000, 'm:hyp-oracle': 1500, 'm:hyp-empty': 600, 'hyp:empty-after-update': 100, 'hyp:K=1': 20,
-        'hyp:K=4': 20, 'hyp:sopt=momentum': 20, 'hyp:sopt=adam': 20,
-        'm:mime-server-bound': 1000, 'm:mime-diag-bound': 2000, 'm:mime-oracle': 1000, 'mime:all-far-clipped-round': 600,
-        'm:ignore-ignored': 2000, 'm:ignore-trained': 2000, 'm:ignore-oracle': 2000,
+        'm:agnostic-simplex': 3000, 'm:agnostic-window-length': 3000, 'm:agnostic-window-last': 3000,
+        'm:agnostic-window-shift': 3000, 'agnostic:absent-domain-round': 500, 'agnostic:W=1': 100, 'agnostic:W=2': 100,
+        'agnostic:W=3': 100, 'agnostic:dlr=1.0': 100,
+        'm:apfl-coef': 5000, 'm:apfl-keyset': 1500, 'apfl:coef-at-boundary': 100,
+        'm:hyp-argmin': 8000, 'm:hyp-argmin-eval': 8000, 'm:hyp-oracle': 4000, 'm:hyp-empty': 3000,
+        'hyp:empty-after-update': 300, 'hyp:K=1': 100, 'hyp:K=4': 100, 'hyp:sopt=momentum': 100, 'hyp:sopt=adam': 100,
+        'm:mime-server-bound': 2500, 'm:mime-diag-bound': 6000, 'm:mime-oracle': 2500, 'mime:all-far-clipped-round': 1500,
+        'm:ignore-ignored': 6000, 'm:ignore-trained': 6000, 'm:ignore-oracle': 6000,
     },
 }
 EXHAUSTIVE = {'quick': False, 'thorough': False}
@@ -84,6 +84,16 @@ def mon(ctx, name, cond, key, what, wit):
   """Monitor assertion with its own hit counter `m:<name>` (used by MIN_HITS)."""
   ctx.count('m:' + name)
   return ctx.check(cond, key, what, wit)
+
+
+LEGS = ['agnostic', 'hyp', 'mime', 'ignore', 'apfl']
+
+
+def samp(ctx, leg, sample):
+  """Evidence keeps the first few samples of every shard: let shard s lead with leg s so that all legs are shown."""
+  if ctx.samples or LEGS[ctx.shard % len(LEGS)] == leg:
+    return sample
+  return None
 
 
 def block_config(ctx, i, configs, reps):
@@ -269,7 +279,8 @@ def run_agnostic(ctx, fedjax, jax, jnp, cfg, h, cache):
   klass = ['leg:agnostic', f'agnostic:mode={h["mode"]}']
   if zero_mean_round is not None:
     klass.append('agnostic:zero-window-mean-history')
-  ctx.case_done(key if (nontrivial and len(h['cohorts']) >= 3) else None, sample={'leg': 'agnostic', **wit}, klass=klass)
+  ctx.case_done(key if (nontrivial and len(h['cohorts']) >= 3) else None,
+                sample=samp(ctx, 'agnostic', {'leg': 'agnostic', **wit}), klass=klass)
 
 
 # ================================================================== (b) apfl
@@ -340,7 +351,8 @@ def run_apfl(ctx, fedjax, jax, jnp, cfg, h, cache):
     if at_boundary:
       ctx.klass('apfl:coef-at-boundary')
   key = ('apfl', cfg, tuple(h['sizes']), tuple(map(tuple, h['cohorts'])), h['data_seed'])
-  ctx.case_done(key if (nontrivial and len(h['cohorts']) >= 3) else None, sample={'leg': 'apfl', **wit},
+  ctx.case_done(key if (nontrivial and len(h['cohorts']) >= 3) else None,
+                sample=samp(ctx, 'apfl', {'leg': 'apfl', **wit}),
                 klass=['leg:apfl', f'apfl:copt={cspec[0]}', f'apfl:coef0={coef}'])
 
 
@@ -465,7 +477,8 @@ def run_hyp(ctx, fedjax, jax, jnp, cfg, h, cache):
       break
   key = ('hyp', cfg, K, tuple(h['sizes']), tuple(map(tuple, h['cohorts'])), h['data_seed'])
   klass = ['leg:hyp'] + (['hyp:discarded'] if discarded else [])
-  ctx.case_done(key if (nontrivial and not discarded and len(h['cohorts']) >= 3) else None, sample={'leg': 'hyp', **wit},
+  ctx.case_done(key if (nontrivial and not discarded and len(h['cohorts']) >= 3) else None,
+                sample=samp(ctx, 'hyp', {'leg': 'hyp', **wit}),
                 klass=klass)
 
 
@@ -595,7 +608,8 @@ def run_mime(ctx, fedjax, jax, jnp, cfg, h, cache):
     ctx.notes['mime_max_diff_over_tol'] = max(ctx.notes.get('mime_max_diff_over_tol', 0.0), float(diff / tol))
   key = ('mime', cfg, tuple(h['sizes']), tuple(map(tuple, h['cohorts'])), h['data_seed'])
   klass = ['leg:mime', f'mime:opt={spec[0]}'] + (['mime:discarded'] if discarded else [])
-  ctx.case_done(key if (nontrivial and not discarded and len(h['cohorts']) >= 3) else None, sample={'leg': 'mime', **wit},
+  ctx.case_done(key if (nontrivial and not discarded and len(h['cohorts']) >= 3) else None,
+                sample=samp(ctx, 'mime', {'leg': 'mime', **wit}),
                 klass=klass)
 
 
@@ -711,7 +725,8 @@ def run_ignore(ctx, fedjax, jax, jnp, cfg, rng, cache):
   n_all = sum(len(v) for v in tpl.values())
   key = ('ignore', t, ignored, spec, steps, b''.join(x.tobytes() for x in toy.leaves(params0)))
   ctx.case_done(key if (0 < len(ignored) < n_all or steps >= 3) else None,
-                sample={'leg': 'ignore', **{k: v for k, v in wit.items() if k != 'grads'}, 'grads_step0': grads_seq[0]},
+                sample=samp(ctx, 'ignore', {'leg': 'ignore', **{k: v for k, v in wit.items() if k != 'grads'},
+                                            'grads_step0': grads_seq[0]}),
                 klass=['leg:ignore', f'ignore:opt={spec[0]}', f'ignore:n_ignored={len(ignored)}/{n_all}'])
 
 
